@@ -41,19 +41,6 @@ def NoteDomain (n : Note) : Prop := InLibrary n ∧ Den n.dur ∧ n.tags.Nodup
 
 instance (n : Note) : Decidable (NoteDomain n) := by unfold NoteDomain; exact inferInstance
 
-/-- what `Note.to_code` of the current tree can express (each clause is one defect of the printer,
-see the `_needed` theorems below) -/
-def Printable (n : Note) : Prop :=
-  (n.kind = .x → n.oct = 0) ∧                                    -- octave of a pattern note is not printed (D9)
-  (n.kind = .x ∨ n.kind = .d → n.mode = none ∧ n.acc = none) ∧    -- mode / accidental only for `is_note` kinds
-  (n.kind = .d → figure n = "mf") ∧                               -- dynamics of a drum note are not printed
-  (Sounding n.kind → figure n ≠ "n")                              -- the figure `n` is read as the suffix `n` (duration 0)
-
-instance (n : Note) : Decidable (Printable n) := by unfold Printable; exact inferInstance
-
-/-- amplitude the text form stands for: the default for `mf`, else the one the dynamics property sets -/
-def canonAmp (f : String) : Rat := if f = "mf" then 66 else dynAmp f
-
 /-- notes on which the round trip is the identity of the model's `Note`: amplitude = the one of
 its figure, no tempo / pedal mark (never printed), rests as `Silence(d, tags)` builds them -/
 def Canonical (n : Note) : Prop :=
@@ -66,163 +53,115 @@ instance (n : Note) : Decidable (Canonical n) := by unfold Canonical; exact infe
 /-! ## notes -/
 
 /-- **Closed form of the round trip.**  For every note of the library domain, evaluating its
-printed form succeeds and gives exactly `rereadNote n`: kind, value, duration, tags kept; octave
-kept except for `x`; mode / accidental kept for the `is_note` kinds; amplitude replaced by the one
-of its figure (for `is_note` kinds and `x`), figure `n` turned into a zero duration. -/
+printed form succeeds and gives exactly `rereadNote n`: kind, value, octave, duration, per-note
+mode, accidental, tags kept for every sounding kind (drum and pattern notes included); amplitude
+replaced by the one of its dynamics figure; a rest / continuation keeps duration and tags. -/
 theorem note_reread (n : Note) (h : NoteDomain n) : evalCode (noteCode n) = .ok (rereadNote n) :=
   evalCode_noteCode n h.1 h.2.1 h.2.2
 
-theorem sounding_not_isNote {k : Kind} (hs : Sounding k) (hn : ¬ k.isNote = true) : k = .d ∨ k = .x := by
-  cases k <;> simp_all [Sounding, Kind.isNote]
+/-- every figure names an amplitude that has this figure again (`n` through `.set_amp(0)`, `mf` through
+the default amplitude, the others through their dynamics property) -/
+theorem figure_canonAmp : ∀ f ∈ FIGURES, Eq.ampFigure (canonAmp f) = f := by decide +kernel
 
-/-- the closed form agrees with the note on every compared field, if the printer can express it -/
-theorem sameFields_reread (n : Note) (hp : Printable n) : SameFields n (rereadNote n) := by
+/-- the closed form agrees with the note on every compared field -/
+theorem sameFields_reread (n : Note) : SameFields n (rereadNote n) := by
   obtain ⟨kind, val, oct, dur, mode, acc, amp, tags, tempo, pedal⟩ := n
-  obtain ⟨p1, p2, p3, p4⟩ := hp
-  simp only [figure] at p1 p2 p3 p4
   by_cases hk : kind = .r ∨ kind = .l
   · have hns : ¬ Sounding kind := by unfold Sounding; tauto
     simp [SameFields, rereadNote, hk, restNote, hns]
-  · have hs : Sounding kind := by unfold Sounding; tauto
-    have hfn : Eq.ampFigure amp ≠ "n" := p4 hs
-    refine ⟨?_, ?_, ?_, ?_⟩
-    · simp [rereadNote, hk]
-    · simp [rereadNote, hk, hfn]
-    · simp [rereadNote, hk]
-    · intro _
-      by_cases hn : kind.isNote = true
-      · refine ⟨by simp [rereadNote, hk], by simp [rereadNote, hk, hn], by simp [rereadNote, hk, hn],
-          by simp [rereadNote, hk, hn], ?_⟩
-        simp only [figure, rereadNote, hk, hn, ↓reduceIte, true_or, true_and]
-        by_cases hmf : Eq.ampFigure amp = "mf"
-        · simp [hmf, figure_default]
-        · simp only [ne_eq, hmf, not_false_eq_true, hfn, and_self, ↓reduceIte]
-          exact (figure_of_dynAmp _ (ampFigure_mem amp) hmf hfn).symm
-      · rcases sounding_not_isNote hs hn with rfl | rfl
-        · -- drum note
-          have hm := p2 (Or.inr rfl)
-          have hf : Eq.ampFigure amp = "mf" := p3 rfl
-          refine ⟨by simp [rereadNote], by simp [rereadNote], by simp [rereadNote, Kind.isNote, hm.1],
-            by simp [rereadNote, Kind.isNote, hm.2], ?_⟩
-          simp [figure, rereadNote, Kind.isNote, hf, figure_default]
-        · -- pattern note
-          have hm := p2 (Or.inl rfl)
-          have ho : oct = 0 := p1 rfl
-          refine ⟨by simp [rereadNote], by simp [rereadNote, Kind.isNote, ho], by simp [rereadNote, Kind.isNote, hm.1],
-            by simp [rereadNote, Kind.isNote, hm.2], ?_⟩
-          simp only [figure, rereadNote, Kind.isNote]
-          by_cases hmf : Eq.ampFigure amp = "mf"
-          · simp [hmf, figure_default]
-          · simp [hmf, hfn]
-            exact (figure_of_dynAmp _ (ampFigure_mem amp) hmf hfn).symm
+  · refine ⟨by simp [rereadNote, hk], by simp [rereadNote, hk], by simp [rereadNote, hk], fun _ => ?_⟩
+    refine ⟨by simp [rereadNote, hk], by simp [rereadNote, hk], by simp [rereadNote, hk], by simp [rereadNote, hk], ?_⟩
+    simp only [figure, rereadNote, hk, ↓reduceIte]
+    exact (figure_canonAmp _ (ampFigure_mem amp)).symm
 
-/-- the full statement for notes: every note of the library domain comes back equal -/
-def NoteRoundtrip_full : Prop :=
-  ∀ n : Note, NoteDomain n → ∃ m, evalCode (noteCode n) = .ok m ∧ SameFields n m
-
-/-- **note_roundtrip (partial)**: for every note of the library domain that the current printer can
-express, `eval(str(n))` succeeds and equals `n` in kind, value, octave, duration, per-note mode,
-accidental, dynamics figure and tags. -/
-theorem note_roundtrip_partial (n : Note) (h : NoteDomain n) (hp : Printable n) :
+/-- **note_roundtrip**: for every note of the library domain — all 17 kinds, every library value, any
+octave in ℤ, any duration inside the resolution, any mode / accidental, any amplitude, any tag set —
+`eval(str(n))` succeeds and equals `n` in kind, value, octave, duration, per-note mode, accidental,
+dynamics figure and tags. -/
+theorem note_roundtrip (n : Note) (h : NoteDomain n) :
     ∃ m, evalCode (noteCode n) = .ok m ∧ SameFields n m :=
-  ⟨rereadNote n, note_reread n h, sameFields_reread n hp⟩
+  ⟨rereadNote n, note_reread n h, sameFields_reread n⟩
 
 /-- on canonical notes the round trip is the identity: the re-read note is *the same note* (so
 anything computed from it — pitch, rendering — is the same) -/
-theorem note_roundtrip_exact (n : Note) (h : NoteDomain n) (hp : Printable n) (hc : Canonical n) :
+theorem note_roundtrip_exact (n : Note) (h : NoteDomain n) (hc : Canonical n) :
     evalCode (noteCode n) = .ok n := by
   rw [note_reread n h]
   congr 1
   obtain ⟨kind, val, oct, dur, mode, acc, amp, tags, tempo, pedal⟩ := n
-  obtain ⟨p1, p2, p3, p4⟩ := hp
   obtain ⟨c1, c2, c3, c4⟩ := hc
-  simp only [figure] at p1 p2 p3 p4 c1 c2 c3 c4
+  simp only [figure] at c1 c2 c3 c4
   subst c1 c2
   by_cases hk : kind = .r ∨ kind = .l
   · have hns : ¬ Sounding kind := by unfold Sounding; tauto
     obtain ⟨rfl, rfl, rfl, rfl, rfl⟩ := c4 hns
     simp [rereadNote, hk, restNote]
   · have hs : Sounding kind := by unfold Sounding; tauto
-    have hfn : Eq.ampFigure amp ≠ "n" := p4 hs
-    have hamp := c3 hs
-    by_cases hn : kind.isNote = true
-    · simp only [rereadNote, hk, hn, ↓reduceIte, true_or, true_and, hfn, and_false, ne_eq, not_false_eq_true, and_true]
-      by_cases hmf : Eq.ampFigure amp = "mf"
-      · simp [hmf, canonAmp] at hamp ⊢; exact hamp.symm
-      · simp [hmf, canonAmp] at hamp ⊢; exact hamp.symm
-    · rcases sounding_not_isNote hs hn with rfl | rfl
-      · have hm := p2 (Or.inr rfl)
-        have hf : Eq.ampFigure amp = "mf" := p3 rfl
-        obtain ⟨rfl, rfl⟩ := hm
-        simp [hf, canonAmp] at hamp
-        simp [rereadNote, Kind.isNote, hamp]
-      · have hm := p2 (Or.inl rfl)
-        have ho : oct = 0 := p1 rfl
-        obtain ⟨rfl, rfl⟩ := hm
-        subst ho
-        simp only [rereadNote, Kind.isNote]
-        by_cases hmf : Eq.ampFigure amp = "mf"
-        · simp [hmf, canonAmp] at hamp ⊢; exact hamp.symm
-        · simp [hmf, hfn, canonAmp] at hamp ⊢; exact hamp.symm
+    simp only [rereadNote, hk, ↓reduceIte, ← c3 hs]
 
-/-! ### the four clauses of `Printable` and the resolution are needed (kernel-checked witnesses, replayed on
-the real code by the oracle) -/
+/-! ### what is still not repaired: the resolution -/
 
-/-- D9: `x3.e.o(1)` prints `x3.e`; the octave is lost -/
-theorem x_octave_needed :
-    let n : Note := { kind := .x, val := 3, oct := 1, dur := 1/2 }
-    NoteDomain n ∧ (noteCode n).text = "x3.e" ∧ evalCode (noteCode n) = .ok { n with oct := 0 } := by
+/-- the statement without the resolution hypothesis (a duration with a denominator above 1000 is
+reachable by chaining suffixes: `s0.t7.t7.t7` lasts 1/21952) -/
+def NoteRoundtrip_full : Prop :=
+  ∀ n : Note, InLibrary n → n.tags.Nodup → ∃ m, evalCode (noteCode n) = .ok m ∧ SameFields n m
+
+/-- outside the resolution the printed `augment` is rounded: the re-read note has duration 0 -/
+theorem resolution_needed :
+    let n : Note := { kind := .s, val := 0, oct := 0, dur := 1/21952 }
+    InLibrary n ∧ n.tags.Nodup ∧ ¬ Den n.dur ∧
+      (noteCode n).text = "s0.augment(frac(1, 21952))" ∧ evalCode (noteCode n) = .ok { n with dur := 0 } := by
   decide +kernel
 
 theorem note_roundtrip_fails : ¬ NoteRoundtrip_full := by
   intro h
-  obtain ⟨m, hm, hs⟩ := h { kind := .x, val := 3, oct := 1, dur := 1/2 } (by decide +kernel)
-  have he : evalCode (noteCode { kind := .x, val := 3, oct := 1, dur := 1/2 })
-      = .ok { kind := .x, val := 3, oct := 0, dur := 1/2 } := by decide +kernel
+  obtain ⟨m, hm, hs⟩ := h { kind := .s, val := 0, oct := 0, dur := 1/21952 } (by decide +kernel) (by decide)
+  have he : evalCode (noteCode { kind := .s, val := 0, oct := 0, dur := 1/21952 })
+      = .ok { kind := .s, val := 0, oct := 0, dur := 0 } := by decide +kernel
   rw [he] at hm
   injection hm with hm
   subst hm
   revert hs
   decide +kernel
 
-/-- `x0.m` prints `x0`: the per-note mode of a pattern (or drum) note is lost -/
-theorem unpitched_mode_needed :
-    let n : Note := { kind := .x, val := 0, oct := 0, mode := some .m }
-    NoteDomain n ∧ (noteCode n).text = "x0" ∧ evalCode (noteCode n) = .ok { n with mode := none } := by
+/-! ### the repaired cases (regression witnesses: each was lost by the text form before its repair) -/
+
+/-- bbbdf5d: `x3.e.o(1)` keeps its octave -/
+theorem x_octave_kept :
+    let n : Note := { kind := .x, val := 3, oct := 1, dur := 1/2 }
+    (noteCode n).text = "x3.e.o(1)" ∧ evalCode (noteCode n) = .ok n := by
   decide +kernel
 
-/-- `d0.f` prints `d0`: the dynamics of a drum note are lost (it then plays with velocity 66) -/
-theorem drum_dynamics_needed :
+/-- 0a31493: `d0.f` keeps its dynamics -/
+theorem drum_dynamics_kept :
     let n : Note := { kind := .d, val := 0, oct := 0, amp := 96 }
-    NoteDomain n ∧ figure n = "f" ∧ (noteCode n).text = "d0" ∧ evalCode (noteCode n) = .ok { n with amp := 66 } := by
+    (noteCode n).text = "d0.f" ∧ evalCode (noteCode n) = .ok n := by
   decide +kernel
 
-/-- a note of amplitude 0 prints `s0.n`, which evaluates to a note of duration 0 and default amplitude -/
-theorem figure_n_needed :
+/-- e90a01c: `x0.m` keeps its mode, a drum note its accidental; amplitude 0 is written `.set_amp(0)` -/
+theorem unpitched_mode_kept :
+    let n : Note := { kind := .x, val := 0, oct := 0, mode := some .m }
+    let d : Note := { kind := .d, val := 4, oct := -1, acc := some .dim }
+    (noteCode n).text = "x0.m" ∧ evalCode (noteCode n) = .ok n ∧
+    (noteCode d).text = "d4.oabs(-1).dim" ∧ evalCode (noteCode d) = .ok d := by
+  decide +kernel
+
+theorem amplitude_zero_kept :
     let n : Note := { kind := .s, val := 0, oct := 0, amp := 0 }
-    NoteDomain n ∧ (noteCode n).text = "s0.n" ∧ evalCode (noteCode n) = .ok { n with dur := 0, amp := 66 } := by
-  decide +kernel
-
-/-- outside the resolution (`s0.t7.t7.t7` lasts 1/21952) the printed `augment` is rounded: duration 0 -/
-theorem resolution_needed :
-    let n : Note := { kind := .s, val := 0, oct := 0, dur := 1/21952 }
-    InLibrary n ∧ n.tags.Nodup ∧ Printable n ∧ ¬ Den n.dur ∧
-      (noteCode n).text = "s0.augment(frac(1, 21952))" ∧ evalCode (noteCode n) = .ok { n with dur := 0 } := by
+    (noteCode n).text = "s0.set_amp(0)" ∧ evalCode (noteCode n) = .ok n := by
   decide +kernel
 
 /-! ### non-vacuity -/
 
 example : NoteDomain { kind := .su, val := 3, oct := -2, dur := 5/7, mode := some .dorian, amp := 96, tags := ["accent", "b"] }
-    ∧ Printable { kind := .su, val := 3, oct := -2, dur := 5/7, mode := some .dorian, amp := 96, tags := ["accent", "b"] }
     ∧ Canonical { kind := .su, val := 3, oct := -2, dur := 5/7, mode := some .dorian, amp := 96, tags := ["accent", "b"] } := by
   decide +kernel
 example : (noteCode { kind := .su, val := 3, oct := -2, dur := 5/7, mode := some .dorian, amp := 96, tags := ["accent", "b"] }).text
     = "su3.augment(frac(5, 7)).oabs(-2).dorian.f.add_tags({'accent', 'b'})" := by decide +kernel
 example : NoteDomain { kind := .s, val := 4, oct := 1, dur := 3/2, acc := some .dim, amp := 50 }
-    ∧ Printable { kind := .s, val := 4, oct := 1, dur := 3/2, acc := some .dim, amp := 50 }
     ∧ ¬ Canonical { kind := .s, val := 4, oct := 1, dur := 3/2, acc := some .dim, amp := 50 } := by decide +kernel
-example : NoteDomain { kind := .r, val := 0, oct := 0, dur := 1/3, tags := ["a"] } ∧ NoteDomain { kind := .d, val := 11, oct := -1 }
-    ∧ NoteDomain { kind := .x, val := 22, oct := 0, amp := 114 } ∧ ¬ InLibrary { kind := .s, val := 7, oct := 0 } := by
+example : NoteDomain { kind := .r, val := 0, oct := 0, dur := 1/3, tags := ["a"] } ∧ NoteDomain { kind := .d, val := 11, oct := -1, amp := 0 }
+    ∧ NoteDomain { kind := .x, val := 22, oct := 3, mode := some .m, amp := 114 } ∧ ¬ InLibrary { kind := .s, val := 7, oct := 0 } := by
   decide +kernel
 
 /-! ## melodies -/
@@ -242,27 +181,25 @@ theorem melody_reread (m : Melody) (hne : m ≠ []) (h : ∀ n ∈ m, NoteDomain
   | nil => exact absurd rfl hne
   | cons x xs => simpa [evalMelody, melodyCodes] using hm
 
-/-- **melody_roundtrip (partial)**: every non-empty melody of printable library notes comes back with
-the same notes, in the same order, equal on all compared fields -/
-theorem melody_roundtrip_partial (m : Melody) (hne : m ≠ []) (h : ∀ n ∈ m, NoteDomain n ∧ Printable n) :
+/-- **melody_roundtrip**: every non-empty melody of library notes comes back with the same notes, in
+the same order, equal on all compared fields -/
+theorem melody_roundtrip (m : Melody) (hne : m ≠ []) (h : ∀ n ∈ m, NoteDomain n) :
     ∃ m', evalMelody (melodyCodes m) = .ok m' ∧ List.Forall₂ SameFields m m' := by
-  refine ⟨m.map rereadNote, melody_reread m hne (fun n hn => (h n hn).1), ?_⟩
-  have hp : ∀ n ∈ m, Printable n := fun n hn => (h n hn).2
+  refine ⟨m.map rereadNote, melody_reread m hne h, ?_⟩
   clear h hne
   induction m with
   | nil => exact List.Forall₂.nil
-  | cons x xs ih =>
-      exact List.Forall₂.cons (sameFields_reread x (hp x (by simp))) (ih (fun n hn => hp n (by simp [hn])))
+  | cons x xs ih => exact List.Forall₂.cons (sameFields_reread x) ih
 
 /-- on canonical notes the melody comes back identical -/
-theorem melody_roundtrip_exact (m : Melody) (hne : m ≠ []) (h : ∀ n ∈ m, NoteDomain n ∧ Printable n ∧ Canonical n) :
+theorem melody_roundtrip_exact (m : Melody) (hne : m ≠ []) (h : ∀ n ∈ m, NoteDomain n ∧ Canonical n) :
     evalMelody (melodyCodes m) = .ok m := by
   rw [melody_reread m hne (fun n hn => (h n hn).1)]
   congr 1
   have : ∀ n ∈ m, rereadNote n = n := by
     intro n hn
     have a := note_reread n (h n hn).1
-    have b := note_roundtrip_exact n (h n hn).1 (h n hn).2.1 (h n hn).2.2
+    have b := note_roundtrip_exact n (h n hn).1 (h n hn).2
     rw [a] at b
     injection b
   clear h hne
@@ -283,20 +220,13 @@ theorem duration_names_roundtrip : ∀ p ∈ DURATION_TO_STR,
   intro p hp
   exact ⟨(dur_table_inverse p hp).2.2.2, (dur_table_inverse p hp).1⟩
 
-/-- **amp_figure_roundtrip**: `amp_figure` always returns one of the nine figures; each of them
-except `n` names a dynamics property whose amplitude has that figure again (`mf` through the default
-amplitude 66, never printed) -/
+/-- **amp_figure_roundtrip**: `amp_figure` always returns one of the nine figures, and the amplitude the
+text form stands for has that figure again — all nine, exact rationals through the float thresholds -/
 theorem amp_figure_roundtrip (a : Rat) :
-    figure { kind := .s, val := 0, oct := 0, amp := a } ∈ FIGURES ∧
-    (Eq.ampFigure a ≠ "n" → Eq.ampFigure (canonAmp (Eq.ampFigure a)) = Eq.ampFigure a) := by
-  refine ⟨ampFigure_mem a, fun hn => ?_⟩
-  unfold canonAmp
-  by_cases hmf : Eq.ampFigure a = "mf"
-  · simp [hmf, figure_default]
-  · simp only [hmf, ↓reduceIte]
-    exact figure_of_dynAmp _ (ampFigure_mem a) hmf hn
+    Eq.ampFigure a ∈ FIGURES ∧ Eq.ampFigure (canonAmp (Eq.ampFigure a)) = Eq.ampFigure a :=
+  ⟨ampFigure_mem a, figure_canonAmp _ (ampFigure_mem a)⟩
 
-/-- the figure `n` has no usable name: `.n` is the rhythmic suffix of 0 quarters -/
+/-- why the figure `n` is written `.set_amp(0)`: the attribute `.n` is the rhythmic suffix of 0 quarters -/
 theorem figure_n_shadowed (cp : Note) : evalAttr cp "n" = .ok { cp with dur := cp.dur * 0 } := evalAttr_n cp
 
 /-- the evaluator's hand-written attribute tables are exactly the note-valued properties of the live
